@@ -150,8 +150,8 @@ def h_read_cd(ctx, config, nsectors):
 def obligations(tier):
     from symx.harness import Ob
     q = tier == "quick"
-    K = 2 if q else 4
-    trails = (0, 5) if q else (0, 5, 13)
+    K = 2 if q else 6
+    trails = (0, 5) if q else (0, 1, 5, 13)
     obs = []
 
     def add(name, func, **params):
@@ -234,7 +234,7 @@ INFO = {
                   "ReportLuns.unmarshall_datain", "ReportTargetPortGroups.unmarshall_datain", "ReportPriority.unmarshall_datain",
                   "ReadElementStatus.unmarshall_datain", "PersistentReserveIn*.unmarshall_datain (4) + unmarshall_transport_id",
                   "ReadDiscInformation.unmarshall_datain", "ReadCd.unmarshall_datain", "converter.decode_bits"],
-    "bounds": {"descriptors per level": "0..2 quick, 0..4 thorough", "trailing bytes": "0/5 quick, 0/5/13 thorough",
+    "bounds": {"descriptors per level": "0..2 quick, 0..6 thorough", "trailing bytes": "0/5 quick, 0/1/5/13 thorough",
                "READ CD": "7 sector layouts x 1..2 (3) sectors, first 24 bytes of each part symbolic",
                "iSCSI names": "lengths 1..4,10..12 quick / 1..39 thorough (content concrete)"},
     "outside": ["responses that are not well-formed (C11 covers termination only)", "larger descriptor counts"],
